@@ -134,6 +134,12 @@ def check_coupled(m, f, k, d, rule):
                     return (ret, pv_, True, v, lw, lv)
                 if fld == 'len':
                     return (ret, pv_, ow, ov, True, v)
+            else:
+                # re-pointing the buffer descriptor itself (its buf / nm) re-targets every view of it just the same
+                a2 = resolve_addr(f, ins.o[1])
+                if a2.fsteps[-1:] in ((('cstl_raw_array', 'buf'),), (('cstl_raw_array', 'nm'),)):
+                    ret, pv_, ow, ov, lw, lv = st
+                    return (True, pv_, ow, ov, lw, lv)
         elif ins.op == 'call':
             if ins.x.get('noreturn'):
                 return None
